@@ -176,7 +176,8 @@ def entry_point_cases(rng, exp, role, tier):
     return cs
 
 def generate(rng, tier):
-    cs = []
+    from props.c07 import typed_at_every_position_cases
+    cs = typed_at_every_position_cases(rng, "v") + typed_at_every_position_cases(rng, "t")
     for exp, role in (("v", "s"), ("t", "s"), ("w", "s"), ("w", "c")):
         cs += entry_point_cases(rng, exp, role, tier)
         cs += read_cases(rng, exp, role, tier)
